@@ -28,8 +28,8 @@ THEOREMS = ["Ymq.C11." + t for t in (
     "pack_one_becomes_two add_inv history_inv cycles_valid try_factor_proper even_combination_square "
     "kernel_step_proper verify_false_negative doubles_disjoint_add doubles_disjoint pack_total add_no_panic "
     "add_inv2 history_no_panic walk_root_max final_step_proper cycles_tail_even try_factor_unreduced_panics above_512_bits_counterexample combine_double_eq_step walk_stack_eq_rec add_stack_eq_add "
-    "add_inv_stack history_inv_stack cycles_valid_stack doubles_disjoint_stack add_no_panic_stack_partial "
-    "history_no_panic_stack_partial").split()]
+    "add_inv_stack history_inv_stack cycles_valid_stack doubles_disjoint_stack add_no_panic_stack "
+    "history_no_panic_stack walk_iter_bound walk_iter_bound_contract add_stack_of_add history_stack_eq_rec").split()]
 PROFILES = ["release", "chk"]
 TIMEOUT = 60.0
 RULE = ("first, in both tiers, a deterministic boundary family: histories, verify, combine, try_factor and final_combine with n = p1*p2 of exactly 63, 64, 65, 127, "
@@ -55,8 +55,9 @@ UNMODELLED = ["bnum Uint/Int operators and num_integer::gcd are taken as Nat/Int
               "(counter-witness above_512_bits_counterexample; the sieves only build stores with n*k < 2^508)",
               "stack depth: since fix e402536 the code's walk_doubles keeps an explicit stack (before it a chain of ~8000 doubles "
               "overflowed the 8 MiB stack); that formulation is modelled line by line (Model/RelationsWalk.lean) and proved to "
-              "compute exactly what the recursive model computes (walk_stack_eq_rec); the closed-form iteration bound of the "
-              "model's while loop is not proved (termination is); chains of 8000..12000 links run on the real code (O only), "
+              "compute exactly what the recursive model computes (walk_stack_eq_rec), its while loop ending within the proved "
+              "bound Store.iterFuel = 2L^2(L+1)+1, L = doubles.len()+doubles_rev.len() (walk_iter_bound); the real stack/heap "
+              "size itself is not modelled; chains of 8000..12000 links run on the real code (O only), "
               "chains up to 1000 (thorough 2000) links are compared with the stack model",
               "ZmodN operations inside relations::combine are taken as exact arithmetic modulo n (that is property C07)",
               "the kernel vectors handed to the final step are an input (kernel solvers are property C14)",
@@ -1048,8 +1049,8 @@ CLAIM = ("For every modulus n <= 2^512 (the code's own limit: 8 packed words, 10
          "constructed relation sets (empty, all-trivial kernels, few/many dependencies, > 5000 columns = block Lanczos) with the real "
          "kernel handed to the model; a Python oracle re-checks every published relation, the final store and every returned divisor.")
 LEVEL_NOTE = ("The store theorems are proved for the recursive formulation and transported to the explicit-stack model that mirrors "
-              "the code (history_inv_stack, cycles_valid_stack, doubles_disjoint_stack; history_no_panic_stack_partial leaves the "
-              "closed-form iteration bound unproved). Domain: n <= 2^512 for the store theorems (stated hypothesis; real stores have n*k < 2^508); add_no_panic excludes only u64 "
+              "the code (history_inv_stack, cycles_valid_stack, doubles_disjoint_stack, history_no_panic_stack; walk_iter_bound is the "
+              "closed-form iteration bound of the explicit-stack loop). Domain: n <= 2^512 for the store theorems (stated hypothesis; real stores have n*k < 2^508); add_no_panic excludes only u64 "
               "counter overflow; stack depth is outside the model (explicit stack in the code since fix e402536, exercised up to 20000 links). "
               "Trusted: Lean kernel (+propext, Classical.choice, Quot.sound); the model's correspondence to the Rust code (checked by "
               "differential runs, not proved); bnum/num_integer as Nat/Int arithmetic; std collections as ordered maps; Python integers.")
